@@ -57,7 +57,10 @@ fn gen_message(rng: &mut Rng, pool: &[(Enr, Vec<u8>)]) -> RefMessage {
     match rng.below(6) {
         0 => RefMessage::Ping { id, enr_seq: gen_u64(rng) },
         1 => {
-            let ip = if rng.bool() {
+            let ip = if rng.chance(1, 8) {
+                // the far ends of the IPv4 range and the well-known special addresses
+                rng.pick(&[[0u8, 0, 0, 0], [255, 255, 255, 255], [127, 0, 0, 1], [0, 0, 0, 1], [224, 0, 0, 1], [169, 254, 0, 0]]).to_vec()
+            } else if rng.bool() {
                 let o: [u8; 4] = rng.array();
                 o.to_vec()
             } else if rng.chance(1, 8) {
@@ -69,7 +72,7 @@ fn gen_message(rng: &mut Rng, pool: &[(Enr, Vec<u8>)]) -> RefMessage {
                 id,
                 enr_seq: gen_u64(rng),
                 ip,
-                port: 1 + rng.below(65535) as u16,
+                port: if rng.chance(1, 8) { *rng.pick(&[1u16, 65535, 255, 256]) } else { 1 + rng.below(65535) as u16 },
             }
         }
         2 => {
@@ -399,13 +402,24 @@ fn check_mutation(rep: &mut Report, rng: &mut Rng, pool: &[(Enr, Vec<u8>)]) {
                 rlp_ref::encode_bytes(&chunk, &mut payload);
             }
             let mut junk = Vec::new();
-            rlp_ref::encode_list_payload(&payload, &mut junk);
+            match rng.below(8) {
+                // ... or no list at all: a single byte that is its own encoding, the empty string,
+                // a short or a long byte string
+                0 | 1 => junk.push(rng.below(0x80) as u8),
+                2 => junk.push(0x80),
+                3 => {
+                    let n = 1 + rng.usize(60);
+                    let b = rng.bytes(n);
+                    rlp_ref::encode_bytes(&b, &mut junk);
+                }
+                _ => rlp_ref::encode_list_payload(&payload, &mut junk),
+            }
             let (id, total, mut recs) = match &m {
                 RefMessage::Nodes { id, total, records } => (id.clone(), *total, records.clone()),
                 other => (other.id().to_vec(), 1, vec![rng.pick(pool).1.clone()]),
             };
             // keep the message within a datagram: few genuine records around the junk item
-            recs.truncate(2);
+            recs.truncate(rng.usize(3));
             let at = rng.usize(recs.len() + 1);
             recs.insert(at, junk);
             bytes = RefMessage::Nodes { id, total, records: recs }.encode();
